@@ -29,6 +29,9 @@ RULE = ('full cartesian products (A: every sparsity mask of every shape x every 
         'distinct by table spec')
 
 DATE = datetime.datetime(2021, 3, 4, 5, 6, 7, 891011)
+# creation dates: with microseconds, on a whole second (isoformat drops the fraction), timezone-aware
+DATES = [DATE, datetime.datetime(2014, 6, 3), datetime.datetime(2014, 6, 3, 14, 24, 40),
+         datetime.datetime(2020, 2, 29, 23, 59, 59, 5, tzinfo=datetime.timezone(datetime.timedelta(hours=2)))]
 READERS = ['load_path', 'load_gz', 'parse_handle', 'parse_lines', 'from_json']
 
 
@@ -129,6 +132,10 @@ def cases(tier, seed):
             for sh in ([1, 2], [2, 1]):
                 out.append({'prod': 'V', 'shape': sh, 'mask': 3, 'vals': [v, other], 'layout': 'csr'})
                 out.append({'prod': 'V', 'shape': sh, 'mask': 3, 'vals': [other, v], 'layout': 'csc'})
+    for dt in range(1, len(DATES)):
+        for shape, mask in FIXED:
+            out.append({'prod': 'B-date', 'shape': list(shape), 'mask': mask, 'rot': rot, 'header': 1,
+                        'layout': 'csr', 'date': dt})
     for ty in D.TYPES:
         out.append({'prod': 'B-type', 'shape': [2, 2], 'mask': 0b0110, 'rot': rot, 'type': ty,
                     'layout': 'csr'})
@@ -186,6 +193,7 @@ def md_equal(got, exp):
 def check(case, acc, tmp):
     import biom
     from biom import Table, load_table, parse_table
+    DATE = DATES[case.get('date', 0)]
     t, exp_md_over = build(case)
     if t is None:
         acc.count('skipped:layout-not-applicable')
